@@ -24,7 +24,8 @@ func (v *zzView) s(name string, x []byte) {
 	v.names = append(v.names, name)
 	v.isStr = append(v.isStr, true)
 	v.nums = append(v.nums, 0)
-	v.strs = append(v.strs, x)
+	// a snapshot owns its bytes
+	v.strs = append(v.strs, append([]byte(nil), x...))
 }
 
 // zzViewEq asserts that got equals want, one assertion per observation.
